@@ -67,6 +67,8 @@ func c01ModeFor(idx int) string {
 	switch {
 	case idx%20 == 7:
 		return "cli"
+	case idx%40 == 13:
+		return "cli-stdin"
 	case idx%10 == 1:
 		return "lib-files"
 	case idx%10 == 2:
